@@ -846,7 +846,7 @@ func (bp *bprover) proveIndex(idx, base ssa.Value, at *ssa.BasicBlock) (bool, st
 
 func checkC04(w *World, c *Check, tier string) {
 	c.Exhaustive = true
-	c.Explanation = "Decides structural clauses of decoder totality over the decode closure D (everything reachable in the package from the ~75 UnmarshalJSON/UnmarshalText/UnmarshalBinary/GobDecode entry points, found by signature — this includes the de-duplicating Append and the equality it uses): (bounds) every index and slice expression in D is in bounds — the Go compiler's own prove pass is asked which bounds checks of the package it could not eliminate, and each such site inside D must be discharged by the checker's symbolic range rules on SSA (range index against the ranged slice or a slice made with its length; results of strings/bytes Index* refined by the dominating comparisons; len(x)-k under a length guard; constant index under a length guard), otherwise it is a finding; (panic) D contains no explicit panic, no single-result type assertion, no integer division by a non-constant; (loop) every loop in D is a range loop or a counted loop whose induction variable moves by a constant step towards a bound; (rec) every cycle of the call graph among functions that carry the input (fastjson value, byte slice, gob property map) contains a descent step to a strictly smaller sub-value, so depth is bounded by fastjson's nesting limit and by input length; (alloc) every make in D is sized by a constant or by the length of an existing value, never by a number decoded from the input. (once) no JSON loader hands the same document value to a descending loader more than once on any path — longest path over the CFG, closures and delegated loaders included — otherwise decoding time doubles per nesting level; (nilfield) every dereference in D of a value loaded from a pointer-to-struct field is preceded on all paths by a store of a fresh value or a not-nil test of that field. NOT decided: panics inside dependencies (fastjson, encoding/gob), nil dereference of pointers other than struct-field pointers and items (C20), quadratic time of de-duplication, and the follow-up-operations clause beyond what C20 (nil-likes) and C12 cover."
+	c.Explanation = "Decides structural clauses of decoder totality over the decode closure D (everything reachable in the package from the ~75 UnmarshalJSON/UnmarshalText/UnmarshalBinary/GobDecode entry points, found by signature — this includes the de-duplicating Append and the equality it uses): (bounds) every index and slice expression in D is in bounds — the Go compiler's own prove pass is asked which bounds checks of the package it could not eliminate, and each such site inside D must be discharged by the checker's symbolic range rules on SSA (range index against the ranged slice or a slice made with its length; results of strings/bytes Index* refined by the dominating comparisons; len(x)-k under a length guard; constant index under a length guard), otherwise it is a finding; (panic) D contains no explicit panic, no single-result type assertion, no integer division by a non-constant; (loop) every loop in D is a range loop or a counted loop whose induction variable moves by a constant step towards a bound; (rec) every cycle of the call graph among functions that carry the input (fastjson value, byte slice, gob property map) contains a descent step to a strictly smaller sub-value, so depth is bounded by fastjson's nesting limit and by input length; (alloc) every make in D is sized by a constant or by the length of an existing value, never by a number decoded from the input. (once) no JSON loader hands the same document value to a descending loader more than once on any path — longest path over the CFG, closures and delegated loaders included — otherwise decoding time doubles per nesting level; (nilfield) every dereference in D of a value loaded from a pointer-to-struct field is preceded on all paths by a store of a fresh value or a not-nil test of that field. NOT decided: panics inside dependencies (fastjson, encoding/gob), nil dereference of pointers other than struct-field pointers and items (C20), quadratic time of de-duplication, and the follow-up-operations clause beyond what C20 (nil-likes) and C12 cover. ADDED: (errnil) where a (pointer, error) call's error is discarded in D, every use of the pointer allows for nil. (once) no loader hands one document value to a descending loader twice on a path. (follow) the encoder/formatter closure holds no explicit panic or single-result assertion."
 	c.RuleText = "obligations: every compiler-unproven bounds check inside D; every panic/assert/division, loop, recursive cycle and make in D; exhaustive over D"
 	c.Trusted = []string{"the Go compiler's prove pass (bounds-check elimination) for the sites it reports as proven", "go/ssa", "apcheck c04.go range rules", "fastjson limits nesting depth (MaxDepth)"}
 	c.floor("C04.bounds", 3)
@@ -1386,7 +1386,38 @@ func checkDescent(w *World, c *Check, D []*ssa.Function, inD map[*ssa.Function]b
 				case *ssa.MakeClosure:
 					g := x.Fn.(*ssa.Function)
 					if nodes[g] {
-						adj[f] = append(adj[f], edge{g, true, in}) // a closure sees the same input
+						// a closure sees the same input — unless the input reaches it only through its own parameters
+						// (a decode step kept in a table row and called as row.decode(mm[row.key])) and every such
+						// call hands it a strictly smaller part
+						flat := true
+						capturesInput := false
+						for _, bnd := range x.Bindings {
+							t := bnd.Type()
+							if pt, isPtr := types.Unalias(t).Underlying().(*types.Pointer); isPtr {
+								t = pt.Elem()
+							}
+							if isInputType(t) {
+								capturesInput = true
+							}
+						}
+						if !capturesInput {
+							nIn, nDescArgs := 0, 0
+							for _, p := range g.Params {
+								if !isInputType(p.Type()) {
+									continue
+								}
+								for _, ra := range rowSetterArgs(p) {
+									nIn++
+									if isDescentArg(w, pr, ra.arg, 0) {
+										nDescArgs++
+									}
+								}
+							}
+							if nIn > 0 && nIn == nDescArgs {
+								flat = false
+							}
+						}
+						adj[f] = append(adj[f], edge{g, flat, in})
 					}
 				case *ssa.Call:
 					var targets []*ssa.Function
